@@ -4,6 +4,8 @@ import itertools
 import json
 import os
 import random
+import shutil
+import tempfile
 
 import vf
 
@@ -102,6 +104,209 @@ def random_histories(rng, cfgs, n, length):
     return out
 
 
+# ---------------------------------------------------------------- chunked entries (what arrives at the sink)
+CH_OFFS, CH_LENS, CH_SIZES = (0, 1, 3, 5), (2, 3, 4), (0, 6, 11)
+
+
+def layouts(ctx, th):
+    """TLC enumerates the chunk layouts (ReplBytesMC.tla: every list of <= n chunks over a small grid
+    of offsets and lengths in every time order x size attributes; overlaps, holes, tails) and checks
+    the content model on each (per-position reading = writes replayed in time order)."""
+    base = open(os.path.join(vf.SPEC, "ReplBytes_mc.cfg")).read() + "INVARIANT Emit\n"
+    g = ctx.instance("G1_ReplBytes", "ReplBytesMC", base,
+                     {"Offs": set(CH_OFFS), "Lens": set(CH_LENS), "MaxChunks": 2, "Sizes": set(CH_SIZES)})
+    lays = ctx.generate(g, workers=4, timeout=1500)
+    if th:
+        g = ctx.instance("G1_ReplBytes3", "ReplBytesMC", base,
+                         {"Offs": {0, 2, 5}, "Lens": set(CH_LENS), "MaxChunks": 3, "Sizes": {0}})
+        lays += [l for l in ctx.generate(g, workers=4, timeout=1500) if len(l["lay"]) == 3]
+    return lays
+
+
+def cev(kind, old, new, och, osz, nch, nsz):
+    return {"ev": "capply", "kind": kind, "isdir": False, "origin": "local", "found": True,
+            "old": list(old), "new": list(new), "och": och, "osz": osz, "nch": nch, "nsz": nsz}
+
+
+def layout_histories(rng, lays, cfgs, per=12):
+    """every layout once as the new entry of a create / update of a watched file: the file is created
+    with one layout and then updated to the next ones (chunk list grows, shrinks, moves)"""
+    lays = list(lays)
+    rng.shuffle(lays)
+    out = []
+    for i in range(0, len(lays), per):
+        c = cfgs[(i // per) % len(cfgs)]
+        p = [x for x in FILES if inside(c, x)][(i // per) % 2]
+        ops, prev = [], None
+        for l in lays[i:i + per]:
+            if prev is None:
+                ops.append(cev("create", (), p, [], 0, l["lay"], l["sz"]))
+            else:
+                ops.append(cev("update", p, p, prev["lay"], prev["sz"], l["lay"], l["sz"]))
+            prev = l
+        out.append({"cfg": c, "ops": ops})
+    return out
+
+
+def rand_layout(rng, flags=True, maxn=4, maxlen=25):
+    n = rng.choice([0, 1, 1, 2, 2, 3, 3, maxn])
+    ts = list(range(1, n + 1))
+    rng.shuffle(ts)
+    gz = flags and rng.random() < 0.3
+    ci = flags and rng.random() < 0.25
+    lay, pos = [], 0
+    for j in range(n):
+        ln = rng.choice([1, 2, 3, 5, 8, 12, maxlen])
+        mode = rng.random()
+        if mode < 0.45:            # overlaps what is there
+            off = max(0, pos - rng.randint(1, 6))
+        elif mode < 0.8:           # appended
+            off = pos
+        else:                      # leaves a hole
+            off = pos + rng.randint(1, 4)
+        pos = max(pos, off + ln)
+        lay.append({"off": off, "len": ln, "k": j + 1, "ts": ts[j], "gz": gz if rng.random() < 0.8 else not gz,
+                    "ci": ci})
+    ext = pos
+    sz = rng.choice([ext, ext, ext, 0, max(0, ext - 2), ext + 3])
+    return lay, sz
+
+
+def random_chunk_histories(rng, cfgs, n, length):
+    """G4: random local-sink histories over chunked files (and now and then a directory): creates,
+    updates whose chunk list grows / shrinks, truncates (same chunks, smaller size attribute),
+    renames, deletes; chunks stored plain / compressed / encrypted"""
+    out = []
+    for _ in range(n):
+        c = rng.choice(cfgs)
+        ops, have = [], {}
+        for _ in range(length):
+            kinds = [k for k in ALLK if k != "rename" or c["mode"] != "replicate"]
+            k = rng.choice(kinds + ["update", "create"])
+            if rng.random() < 0.1:
+                p = rng.choice(DIRS)
+                ops.append({"ev": "apply", "kind": "create", "isdir": True, "origin": "local", "found": True,
+                            "old": [], "new": list(p), "oc": "", "nc": ""})
+                continue
+            if k == "create" or not have:
+                free = [x for x in FILES if x not in have] or FILES
+                p = rng.choice(free)
+                lay, sz = rand_layout(rng)
+                ops.append(cev("create", (), p, [], 0, lay, sz))
+                have[p] = (lay, sz)
+                continue
+            p = rng.choice(sorted(have))
+            olay, osz = have[p]
+            if k == "delete":
+                ops.append(cev("delete", p, (), olay, osz, [], 0))
+                del have[p]
+            elif k == "rename":
+                q = rng.choice([x for x in FILES if x != p])
+                ops.append(cev("rename", p, q, olay, osz, olay, osz))
+                del have[p]
+                have[q] = (olay, osz)
+            else:
+                r = rng.random()
+                if r < 0.3 and olay:      # truncate: same chunks, smaller size attribute
+                    lay, sz = olay, max(0, osz - rng.randint(1, 4))
+                elif r < 0.6 and olay:    # append / overwrite a piece: one more chunk
+                    ext = max(x["off"] + x["len"] for x in olay)
+                    off = rng.choice([ext, max(0, ext - 3), ext + 2, 0])
+                    ln = rng.choice([1, 3, 7])
+                    lay = olay + [{"off": off, "len": ln, "k": len(olay) + 1, "ts": max(x["ts"] for x in olay) + 1,
+                                   "gz": olay[0]["gz"], "ci": olay[0]["ci"]}]
+                    sz = max(ext, off + ln)
+                elif r < 0.75 and len(olay) > 1:   # shrinks
+                    lay, sz = olay[:-1], 0
+                else:
+                    lay, sz = rand_layout(rng)
+                ops.append(cev("update", p, p, olay, osz, lay, sz))
+                have[p] = (lay, sz)
+        out.append({"cfg": c, "ops": ops})
+    return out
+
+
+# ---------------------------------------------------------------- the real filer.backup round
+BROOT = ("c36", "w")
+BSIBS = (("c36", "w2"), ("c36", "wx"))
+BCFGS = [cfg("backup", "local", "local", (BROOT, False), DSTS[0], False),
+         cfg("backup", "local", "local", (BROOT, True), DSTS[1], True)]
+BNAMES = [("a",), ("b",), ("d", "y"), ("d", "z")]
+
+
+def backup_histories(rng, c, n, length, first):
+    """G4: mutations of the source through the real filer (entries with chunk lists, inline content,
+    bodies the filer chunks itself, deletes of files and folders, renames within / into / out of the
+    watched directory) while the real backup round runs; every execution in its own sub-directories"""
+    out = []
+    for x in range(n):
+        ns = "x%d" % (first + x)
+        roots = [list(r) + [ns] for r in (BROOT,) + BSIBS]
+        paths = [tuple(r) + q for r in roots for q in BNAMES]
+        watched = [p for p in paths if p[:2] == BROOT]
+        ops, have = [], set()
+
+        def bop(do, a, b=(), **kw):
+            e = {"ev": "bop", "do": do, "a": list(a), "b": list(b), "ch": [], "sz": 0, "c": "", "mt": 2,
+                 "via": "create", "k": 1, "len": 0}
+            e.update(kw)
+            ops.append(e)
+
+        for _ in range(length):
+            r = rng.random()
+            pool = watched if rng.random() < 0.75 else paths
+            if r < 0.45 or not have:
+                p = rng.choice(pool)
+                how = rng.random()
+                if how < 0.65:
+                    lay, sz = rand_layout(rng, flags=True, maxn=3)
+                    if not lay:
+                        sz = 0
+                    bop("put", p, ch=lay, sz=sz, mt=rng.choice([1, 2]),
+                        via="update" if p in have and rng.random() < 0.5 else "create")
+                elif how < 0.8:
+                    bop("put", p, c=rng.choice(["hello", "inline", "c"]), mt=rng.choice([1, 2]))
+                elif not c["incr"]:
+                    bop("post", p, k=rng.randint(1, 4), len=rng.choice([1, 7, 30, 300]))
+                else:
+                    continue
+                have.add(p)
+            elif r < 0.65:
+                p = rng.choice(sorted(have))
+                free = [q for q in pool if q not in have]
+                if not free:
+                    continue
+                q = rng.choice(free)
+                bop("mv", p, q)
+                have.discard(p)
+                have.add(q)
+            elif r < 0.8:
+                p = rng.choice(sorted(have))
+                bop("rm", p)
+                have.discard(p)
+            elif r < 0.9:
+                d = rng.choice(roots) + ["d"]
+                if rng.random() < 0.5:
+                    bop("rm", d)
+                    have = {p for p in have if list(p[:len(d)]) != d}
+                else:
+                    e = d[:-1] + ["e"]
+                    if any(list(p[:len(e)]) == e for p in have) or not any(list(p[:len(d)]) == d for p in have):
+                        continue
+                    bop("mv", d, e)
+                    have = {tuple(e) + p[len(d):] if list(p[:len(d)]) == d else p for p in have}
+            else:
+                bop("mkdir", rng.choice(roots) + [rng.choice(["d", "m"])])
+        if x == 0:
+            # the first execution of the process: what is there before the round starts must be picked up
+            for e in ops[:2]:
+                e["ev"] = "pre"
+        r = reset_line(c)
+        r.update({"roots": roots, "ns": ns})
+        out.append({"reset": r, "ops": ops})
+    return out
+
+
 def reset_line(c):
     """cfg record of the spec -> reset line of the script (every key sorts after "ev":
     lib/vf.py recognises a reset by the start of the line)."""
@@ -143,7 +348,24 @@ def pack(hists, size=24):
     return out
 
 
+def parts():
+    """VERIF_C36_PARTS=old,chunk,backup (default: all): a development shortcut that restricts the run to
+    the event-mapping executions (old), the chunked entries (chunk) or the real backup round (backup);
+    anything but the default also skips the model checking of ReplMap.tla"""
+    return set(os.environ.get("VERIF_C36_PARTS", "old,chunk,backup").split(","))
+
+
 def generate(ctx, th, allp):
+    hists = generate_old(ctx, th, allp) if "old" in parts() else []
+    if "chunk" in parts():
+        # chunked entries: every enumerated layout once, then seeded random histories
+        rng = random.Random(ctx.seed + 3)
+        hists += layout_histories(rng, layouts(ctx, th), local_cfgs(SRCS[:2]))
+        hists += random_chunk_histories(rng, local_cfgs(SRCS), 1000 if th else 120, 8)
+    return hists
+
+
+def generate_old(ctx, th, allp):
     """G1 (one TLC run, which also checks the design invariants on every generated step):
     - every single event x every configuration into the recording sink (Replicate, sync fn);
     - every single event the filer publishes x origin (source / target / third cluster) through one
@@ -168,12 +390,13 @@ def generate(ctx, th, allp):
 
 
 def run(ctx):
-    ctx.sany("ReplMap", "ReplMapTrace")
+    ctx.sany("ReplMap", "ReplBytes", "ReplBytesMC", "ReplMapTrace")
     th = ctx.thorough
     allp = FILES + DIRS
     hists = []
     if not ctx.replay:      # a replay only re-executes and re-judges the saved script
-        model_check(ctx, th, allp)
+        if parts() >= {"old", "chunk", "backup"}:
+            model_check(ctx, th, allp)
         hists = generate(ctx, th, allp)
 
     script = os.path.join(ctx.out, "script.ndjson")
@@ -187,9 +410,36 @@ def run(ctx):
                     f.write(json.dumps(op) + "\n")
     binp = ctx.build("c36")
     env = {"TZ": "UTC"}
+    tmpd = None
     if os.path.isdir("/dev/shm"):
-        env["TMPDIR"] = "/dev/shm"      # the local sink directories
-    trace = ctx.drive(binp, ["--script", script], env=env)
+        tmpd = tempfile.mkdtemp(prefix="c36.", dir="/dev/shm")
+        env["TMPDIR"] = tmpd            # the local sink directories, the mini-cluster
+    try:
+        if hists or ctx.replay:
+            trace = ctx.drive(binp, ["--script", script], env=env)
+        else:
+            trace = os.path.join(ctx.out, "trace.ndjson")
+            open(trace, "w").close()
+        # the real filer.backup round: one driver process per backup configuration
+        if not ctx.replay and "backup" in parts():
+            rng = random.Random(ctx.seed + 7)
+            first = 1
+            for i, c in enumerate(BCFGS):
+                n = (120 if th else 24) if not c["incr"] else (50 if th else 10)
+                bh = backup_histories(rng, c, n, 7 if th else 6, first)
+                first += n
+                bs = os.path.join(ctx.out, "script_b%d.ndjson" % i)
+                with open(bs, "w") as f:
+                    for h in bh:
+                        f.write(json.dumps(h["reset"]) + "\n")
+                        for op in h["ops"]:
+                            f.write(json.dumps(op) + "\n")
+                bt = ctx.drive(binp, ["--script", bs], env=env, name="trace_b%d" % i)
+                with open(trace, "a") as f:
+                    f.write(open(bt).read())
+    finally:
+        if tmpd:
+            shutil.rmtree(tmpd, ignore_errors=True)
 
     def mutate(evs):
         for i, e in enumerate(evs):
@@ -202,7 +452,8 @@ def run(ctx):
 
     ctx.judge("ReplMapTrace", trace, "trace_base.cfg",
               consts([], [], [], [], False, 0),
-              nontrivial=lambda e: any('"calls":[{' in x.replace(" ", "") for x in e), mutate=mutate,
+              nontrivial=lambda e: any('"calls":[{' in x.replace(" ", "") or '"ev":"bop"' in x.replace(" ", "") for x in e),
+              mutate=mutate,
               chunk_events=2500)
     ctx.rule = ("executions = TLC-enumerated: every single event (create, update, delete, rename within / into / out of / "
                 "outside; file and directory; UpdateEntry finds / does not find the old key) over 5 paths with adversarial "
